@@ -486,7 +486,7 @@ func runEnumKey(c *core.Ctx, e *enumKey[int, int], d *Dom[int]) {
 		func(k, v int) bool { return v%3 == 1 },
 		func(k, v int) bool { return k+v > 40 },
 	}
-	mapNames := []string{"identity", "swap", "coarsen-key", "coarsen-value", "constant-key", "constant-value", "shift"}
+	mapNames := []string{"identity", "swap", "coarsen-key", "coarsen-value", "constant-key", "constant-value", "shift", "coarsen-both", "tiny-codomain", "swap-and-coarsen"}
 	mapfs := []func(k, v int) (int, int){
 		func(k, v int) (int, int) { return k, v },
 		func(k, v int) (int, int) { return v, k },
@@ -495,6 +495,11 @@ func runEnumKey(c *core.Ctx, e *enumKey[int, int], d *Dom[int]) {
 		func(k, v int) (int, int) { return 7, v },
 		func(k, v int) (int, int) { return k, 7 },
 		func(k, v int) (int, int) { return k + 6, v + 6 },
+		// many-to-one on keys AND on values, by different rules: a mapped pair can
+		// collide on its key with one earlier pair and on its value with another
+		func(k, v int) (int, int) { return floorDiv(k, 12) * 12, floorDiv(v+k, 18) * 18 },
+		func(k, v int) (int, int) { return (k / 6) % 3, (v / 6) % 2 },
+		func(k, v int) (int, int) { return floorDiv(v, 12), floorDiv(k, 18) },
 	}
 	for rep := 0; rep < 4; rep++ {
 		pi := r.Intn(len(preds))
@@ -783,6 +788,45 @@ func runHugeEnum(c *core.Ctx, j int) {
 	c.Nontrivial()
 }
 
+// runEnumTyped: the index-enumerable containers over another element type.
+func runEnumTyped[T comparable](c *core.Ctx, kind string, d *Dom[T], n int, coarsen func(int, T) T) {
+	r := c.R
+	cm := d.Cmps[r.Intn(len(d.Cmps))]
+	maps := []func(int, T) T{func(_ int, v T) T { return v }, coarsen, func(int, T) T { return d.Alpha[0] }}
+	names := []string{"identity", "coarsen", "constant"}
+	c.Count("elemtype:"+d.Name, 1)
+	c.Count("elemtype:"+d.Name+":"+kind, 1)
+	c.Note("%s of %s with ~%d elements, comparator %s", kind, d.Name, n, cm.Name)
+	fill := func(add func(vs ...T)) {
+		for k := 0; k < n; k++ {
+			add(d.Val(r))
+		}
+	}
+	switch kind {
+	case "ArrayList":
+		l := arraylist.New[T]()
+		fill(l.Add)
+		runEnumIdx(c, wrapAL(l), d, maps, names)
+	case "SinglyLinkedList":
+		l := singlylinkedlist.New[T]()
+		fill(l.Add)
+		runEnumIdx(c, wrapSL(l), d, maps, names)
+	case "DoublyLinkedList":
+		l := doublylinkedlist.New[T]()
+		fill(l.Add)
+		runEnumIdx(c, wrapDL(l), d, maps, names)
+	case "TreeSet":
+		s := treeset.NewWith[T](cm.F)
+		fill(s.Add)
+		runEnumIdx(c, wrapTS(s, cm.F), d, maps, names)
+	default:
+		s := linkedhashset.New[T]()
+		fill(s.Add)
+		runEnumIdx(c, wrapLS(s), d, maps, names)
+	}
+	c.Nontrivial()
+}
+
 func runC14(c *core.Ctx) {
 	if c.Index < hugeEnumCases {
 		runHugeEnum(c, c.Index)
@@ -815,6 +859,15 @@ func runC14(c *core.Ctx) {
 				add(d.Val(r))
 			}
 		}
+	}
+	if c.Index%19 == 5 && (kind == "ArrayList" || kind == "SinglyLinkedList" || kind == "DoublyLinkedList" || kind == "TreeSet" || kind == "LinkedHashSet") {
+		// the same on elements of a few kilobytes and on small structs
+		if core.Mix(uint64(c.Index), 0xfa7)%2 == 0 { // (by hash: index arithmetic would tie the type to the container kind)
+			runEnumTyped(c, kind, FatDom(r.Range(3, 12)), n, func(i int, v Fat) Fat { v.ID = v.ID/18*18 + 1; v.Pad[0] = int64(v.ID); v.Pad[599] = -int64(v.ID); return v })
+		} else {
+			runEnumTyped(c, kind, StructDom(r.Range(3, 12)), n, func(i int, v SK) SK { return SK{v.A / 18 * 18, "m"} })
+		}
+		return
 	}
 	c.Note("%s with ~%d elements, comparator %s", kind, n, cm.Name)
 	switch kind {
@@ -874,6 +927,11 @@ func init() {
 			f.atLeast("obs:Find-no-match", 5000)
 			f.atLeast("obs:huge-enumerable-cases", hugeEnumCases)
 			f.atLeast("obs:re-entrant-callbacks", 10000)
+			f.atLeast("elemtype:fat-struct", 300)
+			f.atLeast("elemtype:struct", 300)
+			for _, k := range []string{"ArrayList", "SinglyLinkedList", "DoublyLinkedList", "TreeSet", "LinkedHashSet"} {
+				f.atLeast("elemtype:fat-struct:"+k, 20)
+			}
 			for _, k := range enumKinds {
 				f.atLeast("call:"+k+".Map", 1000)
 			}
